@@ -396,6 +396,14 @@ var antlrGetterModel = &Model{Assumption: "A-ANTLR-RT", ApplyInvoke: func(e *Exe
 func (e *Exec) antlrResult(name string, recv *Term, args []*Term, res *types.Tuple) Val {
 	if name == "NotifyErrorListeners" {
 		e.bumpErrs()
+		if len(args) >= 2 {
+			r := e.root()
+			prev := r.errTok
+			if prev == nil || prev.Sort != args[1].Sort {
+				prev = zeroOfSort(args[1].Sort)
+			}
+			r.errTok = Ite(e.guard(), args[1], prev)
+		}
 		return nil
 	}
 	if res.Len() == 0 {
